@@ -222,15 +222,29 @@ def gen_tables(vs):
             seen[body] = vn(v)
             out.append('Definition coll_%s : coll := %s.' % (vn(v), body))
         meta['colls'][v] = seen[body]
+    # the character set stripped before a closing f-string quote (_close_fstring_if_necessary)
+    src = textwrap.dedent(inspect.getsource(tk._close_fstring_if_necessary))
+    calls = [n for n in ast.walk(ast.parse(src)) if isinstance(n, ast.Call) and isinstance(n.func, ast.Attribute)
+             and n.func.attr == 'lstrip']
+    if len(calls) != 1:
+        raise TranslatorError('_close_fstring_if_necessary: expected exactly one .lstrip call')
+    if not calls[0].args:
+        strip = ranges(str.isspace)
+    elif len(calls[0].args) == 1 and isinstance(calls[0].args[0], ast.Constant) and isinstance(calls[0].args[0].value, str):
+        strip = sorted((ord(c), ord(c)) for c in set(calls[0].args[0].value))
+    else:
+        raise TranslatorError('_close_fstring_if_necessary: lstrip argument is not a string literal')
     xs = ranges(lambda c: c.isidentifier())
     xc = ranges(lambda c: ('a' + c).isidentifier())
     spc = ranges(str.isspace)
     out.append('Definition xid_start : list (N*N) := %s.' % fmt_ranges(xs))
     out.append('Definition xid_cont : list (N*N) := %s.' % fmt_ranges(xc))
     out.append('Definition space_tab : list (N*N) := %s.' % fmt_ranges(spc))
+    out.append('Definition fstring_strip_tab : list (N*N) := %s.' % fmt_ranges(strip))
     out.append('''Definition inr (c:N) (t:list (N*N)) : bool := existsb (fun '(a,b) => (a <=? c) && (c <=? b)) t.
 Definition isident (s:str) : bool := match s with [] => false | c :: t => inr c xid_start && forallb (fun x => inr x xid_cont) t end.
-Definition isspace (c:N) : bool := inr c space_tab.''')
+Definition isspace (c:N) : bool := inr c fstring_strip_tab.
+Definition py_isspace (c:N) : bool := inr c space_tab.''')
     out.append('Definition colls : list (N * coll) := [%s].' % ';'.join('(%s, coll_%s)' % (vn(v), vn(v)) for v in vs))
     out.append('Definition versions : list N := [%s].' % ';'.join(vn(v) for v in vs))
     # prefix lexer
